@@ -34,4 +34,13 @@ theorem C18_generic (K V D : Type) [LinearOrder K] (lvl : K → Nat) (hlvl : ∀
   obtain ⟨t₁, t₂, r₁, r₂, _, e, _, _⟩ := C01 lvl hlvl hc ops₁ ops₂ h
   exact ⟨t₁, t₂, r₁, r₂, e⟩
 
+/-- The three constructors yield the same (empty) tree; hence, driven by the same level function
+through histories with the same final map, they are interchangeable (by `C18_generic`). The stored
+hasher/base themselves are glue tied by the `tcfg` stream (three constructors × two builder setter
+orders × clone, identical dumps required). -/
+theorem C18_constructors :
+    (Tree.default : Tree K V D) = Tree.builderBuild ∧ (Tree.default : Tree K V D) = Tree.newWithHasher ∧
+    (Tree.default : Tree K V D) = Tree.empty :=
+  ⟨rfl, rfl, rfl⟩
+
 end Mst.Props
